@@ -75,7 +75,43 @@ def confirm(wt, x):
     return rec
 
 
+def run_isolated(mid, props):
+    """Same as run(), but /repo itself is left alone: a copy of it gets the patch and is bind-mounted over /repo in a
+    private mount namespace for the duration of the check (used while a long background run is reading /repo)."""
+    d = os.path.join(SEEDED, mid)
+    meta = json.load(open(os.path.join(d, "meta.json")))
+    props = props or [meta["property"]]
+    copy = "/tmp/repo_copy"
+    sh(f"rm -rf {copy} && mkdir -p {copy} && rsync -a --exclude target /repo/ {copy}/")
+    rc, out = sh(f"git apply {os.path.join(d, 'patch.diff')}", cwd=copy)
+    if rc != 0:
+        print("patch does not apply: " + out)
+        return 2
+    results = {}
+    for p in props:
+        t0 = time.time()
+        rc, out = sh(f"unshare -m bash -c 'mount --bind {copy} /repo && cd {ROOT} && python3 check.py {p} --tier quick'", timeout=3600)
+        vio = [l for l in out.splitlines() if l.startswith("VIOLATION")]
+        first = ""
+        lines = out.splitlines()
+        for i, l in enumerate(lines):
+            if l.startswith("VIOLATION") and i + 1 < len(lines):
+                first = lines[i + 1].strip()[:300]
+                break
+        results[p] = dict(exit=rc, violations=len(vio), first=first, wall_s=round(time.time() - t0, 1),
+                          tail=out.strip().splitlines()[-1][:300] if out.strip() else "")
+        print(f"{mid} vs {p}: exit={rc} violations={len(vio)} {first[:160]}")
+    sh(f"rm -rf {copy}")
+    res_path = os.path.join(d, "result.json")
+    old = json.load(open(res_path)) if os.path.exists(res_path) else {}
+    old.update(results)
+    json.dump(old, open(res_path, "w"), indent=1)
+    return 0
+
+
 def run(mid, props):
+    if os.environ.get("SEED_ISOLATED"):
+        return run_isolated(mid, props)
     d = os.path.join(SEEDED, mid)
     meta = json.load(open(os.path.join(d, "meta.json")))
     props = props or [meta["property"]]
